@@ -6,8 +6,9 @@
    The theorems are unaffected; the plain extraction (ExtractCore.v) is what the other runner modes use. *)
 Require Extraction.
 Require Import ExtrOcamlBasic ExtrOcamlZBigInt.
-From TV Require Import Model.IndexSets Model.RuleLocal Model.Selection Model.Hier Model.LocalGrid.
+From TV Require Import Model.IndexSets Model.RuleLocal Model.Selection Model.Hier Model.LocalGrid Model.SequenceGrid.
 Extraction Language OCaml.
 Set Extraction Optimize.
 Extraction "../ocaml/gen/corefast.ml"
-  getNode surpluses evalAt hier_cert parent_complete by_level reach Bc classic_candidates.
+  getNode surpluses evalAt hier_cert parent_complete by_level reach Bc classic_candidates
+  seq_surpluses seq_interp.
